@@ -72,7 +72,7 @@ def run(tier):
                 continue
         # the edge shapes of C01 (same object listed twice, mapping types other than dict, ...) byte-exact
         from .c01 import edge_files
-        for f in edge_files(r)[-12:]:
+        for f in edge_files(r):            # (all of them: a slice silently dropped shapes when more were added)
             key = L.gen_key(r)
             L.rec_to_binary(rec, f, r.choice(offs), key)
             L.rec_write(rec, f, key, False, wd)
